@@ -177,6 +177,9 @@ func vfsBuild(nodes []vfsNode, pre *vfsLog, scripts ...vfsPre) *vfsTree {
 					panic("vfs convert panic")
 				}
 				if skip > 0 && v%skip == 0 {
+					if (v/10)%2 == 1 { // items of odd-numbered roots are skipped with a WRAPPED sentinel (errors.Is must still match)
+						return 0, fmt.Errorf("vfs skip %d: %w", v, ErrNoValue)
+					}
 					return 0, ErrNoValue
 				}
 				return v + 100, nil
@@ -184,6 +187,12 @@ func vfsBuild(nodes []vfsNode, pre *vfsLog, scripts ...vfsPre) *vfsTree {
 		case "merge":
 			srs := make([]*StreamReader[int], 0, len(n.Src))
 			for _, s := range n.Src {
+				// "Recv on an array-backed stream, then merge it": idx of an array node = logged Recv calls before it becomes a source
+				if nodes[s-1].K == "array" {
+					for j := 0; j < nodes[s-1].Idx; j++ {
+						vfsRecv(pre, t.readers[s], s)
+					}
+				}
 				srs = append(srs, t.readers[s])
 			}
 			t.readers[id] = MergeStreamReaders(srs)
